@@ -48,6 +48,10 @@ SEGS = ["a", "", ".", "..", "a/b", "a?b", "a&b", "a=b", "a%b", "a#b", "a b", "ö
 UNRESERVED = set("abcdefghijklmnopqrstuvwxyzABCDEFGHIJKLMNOPQRSTUVWXYZ0123456789-._~")
 
 
+PREDECESSOR = "coaps://old.example:7777/old/path?old=1&x"
+PREDECESSOR_PROXY = "http://proxy.example/via?p=1"
+
+
 def pct(s):
     """Own percent-encoder: everything but unreserved characters."""
     return "".join(c if c in UNRESERVED else "".join("%%%02X" % b for b in c.encode("utf8")) for c in s)
@@ -114,6 +118,22 @@ def check_text(res, fam, uri, expect, case, exp_view=None, stable=True):
                                   "message.py:get_request_uri", case, key=fam + ":unstable"))
             return None
         res.traces += 1
+    # the options are those of this URI whatever the message carried before: set on a message that was given another URI first, and
+    # through copy(uri=...) of such a message, the outcome is that of a fresh message
+    # (CoAP URIs only: a URI of another scheme becomes Proxy-Uri and is sent to whatever destination the message has)
+    for how, pred in (("set-again", PREDECESSOR), ("copy", PREDECESSOR), ("copy", PREDECESSOR_PROXY)) if v["proxy"] is None else ():
+        def again():
+            old = decompose(pred)
+            if how == "copy":
+                return old.copy(uri=uri)
+            old.set_request_uri(uri)
+            return old
+        k4, m4 = outcome_of(again)
+        if k4 != "ok" or view(m4) != v:
+            res.violate(Violation("decomposition-depends-on-history", core.jsonable(v),
+                                  core.jsonable(view(m4)) if k4 == "ok" else (core.exc_desc(m4) if k4 == "other" else m4),
+                                  "message.py:set_request_uri", dict(case, how=how, predecessor=pred), key="history:" + how + (":proxy" if pred is PREDECESSOR_PROXY else "")))
+            return None
     res.outcomes.add((fam, "accepted"))
     res.signatures.add((fam, "ok", case.get("shape"), v["host"] is None, len(v["path"]), len(v["query"])))
     return m
